@@ -70,6 +70,8 @@ where
     let mut old2 = 0;
     let mut eqcl1;
     let mut eqcl2;
+    // colour refinement needs at most one round per blank node
+    let mut remaining_rounds = b2q1.len() + 1;
     loop {
         map1 = make_map(&d1, &b2q1, &map1);
         map2 = make_map(&d2, &b2q2, &map2);
@@ -85,6 +87,10 @@ where
         old1 = eqcl1.len();
         old2 = eqcl2.len();
         if old1 == map1.len() && old2 == map2.len() {
+            break;
+        }
+        remaining_rounds -= 1;
+        if remaining_rounds == 0 {
             break;
         }
     }
@@ -128,7 +134,10 @@ fn make_map<'a, T: Term>(
         .map(|(bnid, quads)| {
             let mut digest = 0_u64;
             for i in quads {
-                digest ^= hash_quad_with(&d[*i], map, bnid);
+                // NB: do not combine with XOR: two quads hashing alike would cancel each other,
+                // which can merge blank nodes that were already distinguished
+                // (and make the refinement loop oscillate forever).
+                digest = digest.wrapping_add(hash_quad_with(&d[*i], map, bnid));
             }
             (bnid.as_str(), digest)
         })
